@@ -33,8 +33,18 @@ impl FlightIngestService {
             return Ok(0);
         }
 
-        let batches = flight_data_to_batches(&payload)
-            .map_err(|e| crate::Error::InvalidSchema(format!("Flight IPC decode failed: {e}")))?;
+        // The IPC reader verifies a frame's header but not that the body is as long as the
+        // header says: it slices the body with an assert, i.e. a truncated or length-altered
+        // frame makes it panic. Malformed input is an error, not a crashed handler.
+        let batches = std::panic::catch_unwind(std::panic::AssertUnwindSafe(|| {
+            flight_data_to_batches(&payload)
+        }))
+        .map_err(|_| {
+            crate::Error::InvalidSchema(
+                "Flight IPC decode failed: record batch body does not match its header".into(),
+            )
+        })?
+        .map_err(|e| crate::Error::InvalidSchema(format!("Flight IPC decode failed: {e}")))?;
 
         let mut total_rows = 0u64;
         for batch in batches {
